@@ -4,6 +4,7 @@ pub mod props;
 pub mod props2;
 pub mod props3;
 pub mod props4;
+pub mod sink;
 
 use crate::runner::Check;
 
